@@ -68,8 +68,10 @@ def g3_count_inflation(name, data, boxes):
             continue
         p = at + hdr + off
         true = struct.unpack(">I", data[p:p + 4])[0]
-        for v in (0, true - 1, true + 1, 1 << 16, 1 << 31, (1 << 32) - 1):
-            if v < 0 or v == true:
+        # true + 2^32/k: the values for which count x entry size (k = 2, 4, 8, 16 bytes) is congruent to the real payload
+        # length modulo 2^32 - a size check done in 32-bit arithmetic accepts them
+        for v in (0, true - 1, true + 1, 1 << 16, 1 << 31, (1 << 32) - 1, true + (1 << 28), true + (1 << 29), true + (1 << 30), true + (1 << 31)):
+            if v < 0 or v == true or v >= 1 << 32:
                 continue
             m = bytearray(data)
             m[p:p + 4] = struct.pack(">I", v & 0xffffffff)
@@ -205,7 +207,7 @@ def run(ctx):
                             what="Robust.tla totality invariant violated")
     ctx.cov["bounds"] = {"G1": "%d shape sequences (all pairs; triples behind %s) over 56 box variants" % (len(g1_items), "4 heads" if q else "every head"),
                          "G2": "size field of every box in {0,1,7,8,9,true+-1,2^31,2^32-1} and largesize in {0,15,16,2^63}",
-                         "G3": "count fields of 16 counted box types set to {0, true-1, true+1, 2^16, 2^31, 2^32-1}",
+                         "G3": "count fields of 16 counted box types set to {0, true-1, true+1, 2^16, 2^31, 2^32-1, true+2^28, true+2^29, true+2^30, true+2^31 (count x entry size wraps to the real length modulo 2^32)}",
                          "G4": "truncation at every box boundary +-{0,1,4,8,hdr+4}; every byte for files <= 2 KiB",
                          "G5": "single deletion and adjacent swap of top-level and second-level boxes; deletion of any nested box with the size fields of all its ancestors adjusted",
                          "G6": "%d inputs: every instance of the 134 BoxLayouts.tla box shapes%s" % (g6, "" if q else " and every truncation of the count-2 shape instances"),
